@@ -17,6 +17,9 @@ pub struct LineColIterator<I> {
     /// computation of the current line, column, and byte offset while only
     /// updating one of the counters in `next()` in the common case.
     start_of_line: usize,
+
+    /// Line and column before the most recent byte was read.
+    prev: (usize, usize),
 }
 
 impl<I> LineColIterator<I>
@@ -29,6 +32,7 @@ where
             line: 1,
             col: 0,
             start_of_line: 0,
+            prev: (1, 0),
         }
     }
 
@@ -38,6 +42,11 @@ where
 
     pub fn col(&self) -> usize {
         self.col
+    }
+
+    /// Line and column as they were before the most recently read byte.
+    pub fn prev_position(&self) -> (usize, usize) {
+        self.prev
     }
 
     pub fn byte_offset(&self) -> usize {
@@ -55,12 +64,14 @@ where
         match self.iter.next() {
             None => None,
             Some(Ok(b'\n')) => {
+                self.prev = (self.line, self.col);
                 self.start_of_line += self.col + 1;
                 self.line += 1;
                 self.col = 0;
                 Some(Ok(b'\n'))
             }
             Some(Ok(c)) => {
+                self.prev = (self.line, self.col);
                 self.col += 1;
                 Some(Ok(c))
             }
